@@ -18,7 +18,7 @@ import math
 from rv import gen, oracle
 
 PLAN = {
-    "quick": {"cases": 960, "hashseeds": 3, "shards": 5, "timeout": 420, "min_nontrivial": 400},
+    "quick": {"cases": 1920, "hashseeds": 3, "shards": 5, "timeout": 420, "min_nontrivial": 800},
     "thorough": {"cases": 9600, "hashseeds": 8, "shards": 2, "timeout": 3000, "min_nontrivial": 4000},
 }
 RULE = ("case idx%8: 0 -> EM case, 1-2 -> fit_update case, 3-7 -> fit case. World = random DAG (templates of "
